@@ -39,6 +39,7 @@ class Job:
     pre_hook_arg: object = None
     out_path: str | None = None  # override report path template (e.g. "{scratch}/nodir/x.codetf")
     snapshot_meta: bool = False  # record (mode, mtime_ns) per file as well
+    debug_logs: bool = False  # capture DEBUG records too (without --verbose, so semgrep stays piped)
 
 
 @dataclass
@@ -206,12 +207,50 @@ def init_inproc():
     lg.propagate = False
 
     def configure_logger(verbose, log_format=None, project_name=None):
-        lg.setLevel(logging.DEBUG if verbose else logging.INFO)
+        lg.setLevel(logging.DEBUG if (verbose or _force_debug[0]) else logging.INFO)
 
     cm.configure_logger = configure_logger
     cl.configure_logger = configure_logger
     lg.setLevel(logging.INFO)
+    _install_semgrep_tap()
     _inproc_ready = True
+
+
+_force_debug = [False]
+_semgrep_calls: list = []
+
+
+def _install_semgrep_tap():
+    """Record what the codemod's own detector (semgrep) reported, per call: {rule: {path: [(sl, sc, el, ec)]}}.
+    Installed at the two names through which the product calls codemodder.semgrep.run; absent names are skipped."""
+    import importlib
+
+    def wrap(fn):
+        def tapped(*a, **kw):
+            rs = fn(*a, **kw)
+            try:
+                snap = {}
+                for rule, by_file in rs.items():
+                    for path, results in by_file.items():
+                        snap.setdefault(rule, {}).setdefault(str(path), []).extend(
+                            (l.start.line, l.start.column, l.end.line, l.end.column) for r in results for l in r.locations
+                        )
+                _semgrep_calls.append(snap)
+            except Exception:
+                _semgrep_calls.append(None)
+            return rs
+
+        tapped.__wrapped__ = fn
+        return tapped
+
+    for mod, name in (("codemodder.codemods.semgrep", "semgrep_run"), ("codemodder.codemodder", "run_semgrep")):
+        try:
+            m = importlib.import_module(mod)
+            fn = getattr(m, name)
+            if not hasattr(fn, "__wrapped__"):
+                setattr(m, name, wrap(fn))
+        except Exception:
+            pass
 
 
 def _resolve_hook(spec):
@@ -268,6 +307,8 @@ def run_inproc(job: Job) -> Observation:
                 argv += ["--output", str(out)]
             reset_caches()
             del _log_records[:]
+            del _semgrep_calls[:]
+            _force_debug[0] = job.debug_logs
             so, se = io.StringIO(), io.StringIO()
             try:
                 with contextlib.redirect_stdout(so), contextlib.redirect_stderr(se):
@@ -280,6 +321,9 @@ def run_inproc(job: Job) -> Observation:
                 se.write(traceback.format_exc())
             obs.exits.append(code)
             obs.logs.append(list(_log_records))
+            obs.extra.setdefault("semgrep_calls", []).append(
+                [None if c is None else {r: {p.replace(str(proj) + "/", ""): v for p, v in bf.items()} for r, bf in c.items()} for c in _semgrep_calls]
+            )
             obs.stdout.append(so.getvalue())
             obs.stderr.append(se.getvalue())
             rep = raw = None
@@ -392,6 +436,14 @@ def _pool_init():
     core.setup_env()
     # each worker has its own scratch root (pid based)
     core._SCRATCH = None
+    # children of the code under test (semgrep under --verbose) inherit fd 1/2: keep them off the check's output
+    try:
+        log = os.open(str(core.scratch_root() / "worker.log"), os.O_WRONLY | os.O_CREAT | os.O_APPEND)
+        os.dup2(log, 1)
+        os.dup2(log, 2)
+        os.close(log)
+    except OSError:
+        pass
     try:
         init_inproc()
     except Exception:
